@@ -18,7 +18,7 @@ func init() {
 		Cases: func(tier string) int { return vlib.TierN(tier, 960, 144000) },
 		Rule: "case i runs one generated concurrent program on a real GoChannel: config i%12 of {buffer 0/1/4} x {persistent} x {blocking}, 1..3 topics, 1..4 publisher goroutines " +
 			"(1..12 messages each, batches of 1..3, random metadata/payload), 0..4 subscriptions per topic created before or concurrently with the publishers, consumer behaviours " +
-			"{ack, nack 1..3x then ack, slow, edit metadata / re-assign payload of the received copy, cancel after k receives, cancel from another goroutine}; yield/delay injection at the gochannel hook points. " +
+			"{ack, nack 1..3x then ack, slow, edit metadata / re-assign payload of the received copy, cancel after k receives, cancel from another goroutine}; in 30% of the programs the publisher edits the metadata of its own message objects after each Publish call returned; yield/delay injection at the gochannel hook points. " +
 			"The history (publish start/end, subscribe end, receive with deep snapshot and context facts, settle start) is judged at quiescence. " +
 			"Non-trivial: at least one delivery was judged and at least two goroutines' operations existed; distinct = (config, program shape, hook-arrival fingerprint).",
 		Assumptions: []string{
@@ -46,6 +46,7 @@ func gen(e *vlib.Env) gcw.Program {
 		YieldP:    []float64{0, 0.2, 0.5}[r.Intn(3)],
 		YieldUs:   []int{0, 50, 200}[r.Intn(3)],
 	}
+	p.EditAfterPublish = r.Chance(0.3)
 	np := r.Range(1, 4)
 	for i := 0; i < np; i++ {
 		p.Pubs = append(p.Pubs, gcw.PubSpec{Topic: r.Intn(p.Topics), N: r.Range(1, 12), Batch: r.Range(1, 3)})
@@ -68,7 +69,7 @@ func gen(e *vlib.Env) gcw.Program {
 }
 
 func shape(p gcw.Program) string {
-	s := fmt.Sprintf("b%d/p%v/k%v/T%d", p.Cfg.OutputChannelBuffer, p.Cfg.Persistent, p.Cfg.BlockPublishUntilSubscriberAck, p.Topics)
+	s := fmt.Sprintf("b%d/p%v/k%v/T%d/edit%v", p.Cfg.OutputChannelBuffer, p.Cfg.Persistent, p.Cfg.BlockPublishUntilSubscriberAck, p.Topics, p.EditAfterPublish)
 	for _, pb := range p.Pubs {
 		s += fmt.Sprintf("|P%d:%d:%d", pb.Topic, pb.N, pb.Batch)
 	}
@@ -223,7 +224,7 @@ func judge(rn *gcw.Run, res *vlib.Result) {
 		if st := vlib.Settled(p.Orig); st != "" {
 			res.Fail("original-settled", "the publisher's original %s was %sed by the Pub/Sub or a subscriber", p.UUID, st)
 		}
-		if !p.OrigSnap.SameValue(p.Orig) {
+		if !p.EditedAfter && !p.OrigSnap.SameValue(p.Orig) {
 			res.Fail("original-edited", "the publisher's original %s changed: %+v -> %+v", p.UUID, p.OrigSnap, vlib.Snap(p.Orig))
 		}
 		if p.Err != "" {
